@@ -18,6 +18,7 @@ AllCases(u) ==
   (IF "jmp" \in Families THEN JmpCases(u) ELSE {}) \cup
   (IF "frame" \in Families THEN FrameCases(u) ELSE {}) \cup
   (IF "flow" \in Families THEN FlowCases(u) ELSE {}) \cup
+  (IF "pairs" \in Families THEN PairsCases(u) ELSE {}) \cup
   (IF "far" \in Families THEN FarCases(u) ELSE {}) \cup
   (IF "mem" \in Families THEN MemCases(u) ELSE {}) \cup
   (IF "bounds" \in Families THEN BoundsCases(u) ELSE {}) \cup
